@@ -17,40 +17,41 @@ def DefOK (cx : Cx) (m j : Nat) (dIn dOut : List LItem) : Option Nat → Prop
 
 /-- `Hn`: the header jumps, `Cn`: the blocks collected for the source cases `SC`; `dIn` / `dOut`: the default ops before / after.
 `L`, `Cs`: the loop and case stacks around the switch. -/
-structure SwSem (cx : Cx) (fuel : Nat) (env : Src.Env) (endL : Nat) (L : List (Nat × Nat)) (Cs : List Nat)
+structure SwSem (cx : Cx) (fuel : Nat) (env : Src.Env) (endL : Nat) (L : List (Nat × Nat)) (Cs : List Nat) (sE : St)
     (SC : Src.Cases) (Hn Cn dIn dOut : List LItem) : Prop where
-  grow : ∀ k nt b, Grow b (Src.trCases fuel [] (brkEnv env k) SC k nt b).1
+  grow : ∀ k nt b, Grow cx.Z b (Src.trCases fuel [] (brkEnv env k) SC k nt b).1
   corr : ∀ k nt r pH pC, Placed cx.rs r pH Hn → Placed cx.rs r pC Cn → ∀ b,
-    AgreeOn cx.N b (Src.trCases fuel [] (brkEnv env k) SC k nt b).1 → ∀ m j (sC : St), sC.loops = L → sC.cases = endL :: Cs →
-    ExitsOK cx m j sC (brkEnv env k) → R2 cx m j ⟨r, pC + Cn.length⟩ k →
+    AgreeOn cx.N cx.Z b (Src.trCases fuel [] (brkEnv env k) SC k nt b).1 → ∀ m j (sC : St), sC.loops = L → sC.cases = endL :: Cs →
+    ExitsOK cx m j sC (brkEnv env k) → NamedIn cx sE → R2 cx m j ⟨r, pC + Cn.length⟩ k →
     (R2 cx m j ⟨r, pH + Hn.length⟩ nt → R2 cx m j ⟨r, pH⟩ (Src.trCases fuel [] (brkEnv env k) SC k nt b).2.2.1) ∧
     R2 cx m j ⟨r, pC⟩ (Src.trCases fuel [] (brkEnv env k) SC k nt b).2.1 ∧
-    DefOK cx m j dIn dOut (Src.trCases fuel [] (brkEnv env k) SC k nt b).2.2.2
+    DefOK cx m j dIn dOut (Src.trCases fuel [] (brkEnv env k) SC k nt b).2.2.2 ∧
+    LabExport cx env m j b (Src.trCases fuel [] (brkEnv env k) SC k nt b).1
 
-theorem sw_nil (cx : Cx) (fuel : Nat) (env : Src.Env) (endL : Nat) (L : List (Nat × Nat)) (Cs : List Nat) (d : List LItem) :
-    SwSem cx fuel env endL L Cs .nil [] [] d d := by
+theorem sw_nil (cx : Cx) (fuel : Nat) (env : Src.Env) (endL : Nat) (L : List (Nat × Nat)) (Cs : List Nat) (sE : St) (d : List LItem) :
+    SwSem cx fuel env endL L Cs sE .nil [] [] d d := by
   refine ⟨fun k nt b => by rw [trCases_nil]; exact Grow.refl b, ?_⟩
-  intro k nt r pH pC _ _ b _ m j sC _ _ _ hend
+  intro k nt r pH pC _ _ b _ m j sC _ _ _ _ hend
   rw [trCases_nil]
-  exact ⟨fun h => by simpa using h, by simpa using hend, rfl⟩
+  exact ⟨fun h => by simpa using h, by simpa using hend, rfl, LabExport.same (fun _ _ => rfl)⟩
 
 /-- a case with a block: the header jumps of the handlers waiting for it, its own header jump, its block -/
-theorem sw_case (cx : Cx) (fuel : Nat) (env : Src.Env) (he : PlainEnv env) (endL : Nat) (L : List (Nat × Nat)) (Cs : List Nat)
+theorem sw_case (cx : Cx) (fuel : Nat) (env : Src.Env) (he : EnvOK cx env) (endL : Nat) (L : List (Nat × Nat)) (Cs : List Nat)
     (w : List (Option BP)) (hs dIn d1 : List LItem) (sL eB : Nat) (ops : List LItem) (sa sb : St) (body : Stmts) (n : Nat) (bp : BP)
     (htest : isTest bp.name = true)
-    (hP : ∀ env', PlainEnv env' → PieceOK cx ops sa sb (fun k b => Src.trStmts fuel [] env' (toSrcStmts body) k b) env')
-    (hsaL : sa.loops = L) (hsaC : sa.cases = endL :: Cs) (hW : WaitSem cx fuel sL w hs dIn d1)
-    {SCr : Src.Cases} {Hr Cr dOut : List LItem} (hR : SwSem cx fuel env endL L Cs SCr Hr Cr d1 dOut)
+    (hP : ∀ env', EnvOK cx env' → PieceOK cx ops sa sb (fun k b => Src.trStmts fuel [] env' (toSrcStmts body) k b) env')
+    (hsaL : sa.loops = L) (hsaC : sa.cases = endL :: Cs) (hW : WaitSem cx fuel sL w hs dIn d1) {sE : St} (hle : NamedLe sb sE)
+    {SCr : Src.Cases} {Hr Cr dOut : List LItem} (hR : SwSem cx fuel env endL L Cs sE SCr Hr Cr d1 dOut)
     (hnd : hasNone w = true → ∀ k nt b, (Src.trCases fuel [] (brkEnv env k) SCr k nt b).2.2.2 = none) :
-    SwSem cx fuel env endL L Cs (wSrc w (.cons false ⟨bp.name, convParams bp.params⟩ (toSrcStmts body) SCr))
+    SwSem cx fuel env endL L Cs sE (wSrc w (.cons false ⟨bp.name, convParams bp.params⟩ (toSrcStmts body) SCr))
       (hs ++ [LItem.ljump ⟨n, bp.name, bp.params⟩ (some sL)] ++ Hr)
       ([LItem.label sL false] ++ ops ++ [LItem.label eB false] ++ Cr) dIn dOut := by
   have hsub : ∀ k, (brkEnv env k).subst = [] := fun k => he.1
   refine ⟨fun k nt b => ?_, ?_⟩
   · obtain ⟨gW, _, _, _⟩ := hW.sem (brkEnv env k) (hsub k) k nt (.cons false ⟨bp.name, convParams bp.params⟩ (toSrcStmts body) SCr) b
     rw [trCases_case fuel (brkEnv env k) (hsub k) _ _ SCr k nt b rfl rfl] at gW
-    exact (((hR.grow k nt b).trans ((hP _ (plainEnv_brkEnv he k)).grow _ _)).trans (Grow.push _ _)).trans gW
-  intro k nt r pH pC hpH hpC b hag m j sC hl hc hex hend
+    exact (((hR.grow k nt b).trans ((hP _ (plainEnv_brkEnv he k)).grow _ _)).trans (Grow.push _ _)).trans gW.grow
+  intro k nt r pH pC hpH hpC b hag m j sC hl hc hex hin hend
   have hPe := hP _ (plainEnv_brkEnv he k)
   obtain ⟨gW, ebW, edW, cW⟩ := hW.sem (brkEnv env k) (hsub k) k nt (.cons false ⟨bp.name, convParams bp.params⟩ (toSrcStmts body) SCr) b
   have gR := hR.grow k nt b
@@ -66,15 +67,15 @@ theorem sw_case (cx : Cx) (fuel : Nat) (env : Src.Env) (he : PlainEnv env) (endL
     at hag gW ebW edW cW ⊢
   obtain ⟨a1, a2⟩ := tbl_push Bd.1 (.test ⟨bp.name, convParams bp.params⟩ Bd.2 T0.2.2.1)
   -- the node table
-  have agR : AgreeOn cx.N b T0.1 := hag.sub_grow (Grow.refl b) ((gB.trans (Grow.push _ _)).trans gW)
-  have agB : AgreeOn cx.N T0.1 Bd.1 := hag.sub_grow gR ((Grow.push _ _).trans gW)
-  have agW : AgreeOn cx.N (Bd.1.push (.test ⟨bp.name, convParams bp.params⟩ Bd.2 T0.2.2.1)).1 TW.1 :=
+  have agR : AgreeOn cx.N cx.Z b T0.1 := hag.sub_grow (Grow.refl b) ((gB.trans (Grow.push _ _)).trans gW.grow)
+  have agB : AgreeOn cx.N cx.Z T0.1 Bd.1 := hag.sub_grow gR ((Grow.push _ _).trans gW.grow)
+  have agW : AgreeOn cx.N cx.Z (Bd.1.push (.test ⟨bp.name, convParams bp.params⟩ Bd.2 T0.2.2.1)).1 TW.1 :=
     hag.sub_grow ((gR.trans gB).trans (Grow.push _ _)) (Grow.refl _)
   have hN : cx.N[(tbl Bd.1).length]? = some (.test ⟨bp.name, convParams bp.params⟩ Bd.2 T0.2.2.1) := by
     have hl1 := gW.len
     rw [a1] at hl1
     simp only [List.length_append, List.length_cons, List.length_nil] at hl1
-    rw [hag _ (gR.trans gB).len (by omega), gW.get (by rw [a1]; simp), a1]
+    rw [hag.2 _ (gR.trans gB).len (by omega), gW.same (by rw [a1]; simp), a1]
     simp
   -- positions
   have hpHs : Placed cx.rs r pH hs := hpH.left.left
@@ -89,14 +90,16 @@ theorem sw_case (cx : Cx) (fuel : Nat) (env : Src.Env) (he : PlainEnv env) (endL
   have hendR : R2 cx m j ⟨r, pC + ops.length + 2 + Cr.length⟩ k := by
     have e : pC + ops.length + 2 + Cr.length = pC + ([LItem.label sL false] ++ ops ++ [LItem.label eB false] ++ Cr).length := by len_omega
     rw [e]; exact hend
-  obtain ⟨tR, bR, dR⟩ := cR r (pH + hs.length + 1) (pC + ops.length + 2) hpHr hpCr agR m j sC hl hc hex hendR
+  obtain ⟨tR, bR, dR, xR⟩ := cR r (pH + hs.length + 1) (pC + ops.length + 2) hpHr hpCr agR m j sC hl hc hex hin hendR
   -- the body
   have hexA : ExitsOK cx m j sa (brkEnv env k) := hex.same (hsaL.trans hl.symm) (hsaC.trans hc.symm)
-  have hbody : R2 cx m j ⟨r, pC⟩ Bd.2 := by
-    have := loop_body_run cx hPe sL eB Cr hpBlk T0.2.1 T0.1 (by rw [hBd]; exact agB) m j hexA bR
+  have hbody2 : R2 cx m j ⟨r, pC⟩ Bd.2 ∧ LabExport cx (brkEnv env k) m j T0.1 Bd.1 := by
+    have := loop_body_run cx hPe sL eB Cr hpBlk T0.2.1 T0.1 (by rw [hBd]; exact agB) m j hexA (hin.le hle) bR
     rw [hBd] at this; exact this
+  have hbody := hbody2.1
   have hstep := lab_test hitT (isTest_not_jump _ htest) htest
-  refine ⟨fun hnt => ?_, by rw [ebW]; exact hbody, ?_⟩
+  refine ⟨fun hnt => ?_, by rw [ebW]; exact hbody, ?_, LabExport.comp gR.len xR
+    (LabExport.comp gB.len hbody2.2 (LabExport.same (fun i hi => ((Pushes.push _ _).trans gW).same hi)))⟩
   · have hnt' : R2 cx m j ⟨r, pH + hs.length + 1 + Hr.length⟩ nt := by
       have e : pH + hs.length + 1 + Hr.length = pH + (hs ++ [LItem.ljump ⟨n, bp.name, bp.params⟩ (some sL)] ++ Hr).length := by len_omega
       rw [e]; exact hnt
@@ -120,21 +123,21 @@ theorem sw_case (cx : Cx) (fuel : Nat) (env : Src.Env) (he : PlainEnv env) (endL
       rw [← hd1]; exact dR
 
 /-- the default with a block: the header jumps of the handlers waiting for it, the jump of the default ops, its block -/
-theorem sw_default (cx : Cx) (fuel : Nat) (env : Src.Env) (he : PlainEnv env) (endL : Nat) (L : List (Nat × Nat)) (Cs : List Nat)
+theorem sw_default (cx : Cx) (fuel : Nat) (env : Src.Env) (he : EnvOK cx env) (endL : Nat) (L : List (Nat × Nat)) (Cs : List Nat)
     (w : List (Option BP)) (hs dIn d1 : List LItem) (sL eB : Nat) (ops : List LItem) (sa sb : St) (body : Stmts) (n0 : Nat)
-    (hP : ∀ env', PlainEnv env' → PieceOK cx ops sa sb (fun k b => Src.trStmts fuel [] env' (toSrcStmts body) k b) env')
+    (hP : ∀ env', EnvOK cx env' → PieceOK cx ops sa sb (fun k b => Src.trStmts fuel [] env' (toSrcStmts body) k b) env')
     (hsaL : sa.loops = L) (hsaC : sa.cases = endL :: Cs)
-    (hW : WaitSem cx fuel sL w hs [LItem.ljump ⟨n0, Gen.op_jump, []⟩ (some sL)] d1)
-    {SCr : Src.Cases} {Hr Cr dOut : List LItem} (hR : SwSem cx fuel env endL L Cs SCr Hr Cr d1 dOut)
+    (hW : WaitSem cx fuel sL w hs [LItem.ljump ⟨n0, Gen.op_jump, []⟩ (some sL)] d1) {sE : St} (hle : NamedLe sb sE)
+    {SCr : Src.Cases} {Hr Cr dOut : List LItem} (hR : SwSem cx fuel env endL L Cs sE SCr Hr Cr d1 dOut)
     (hnd : ∀ k nt b, (Src.trCases fuel [] (brkEnv env k) SCr k nt b).2.2.2 = none) :
-    SwSem cx fuel env endL L Cs (wSrc w (.cons true ⟨"", []⟩ (toSrcStmts body) SCr))
+    SwSem cx fuel env endL L Cs sE (wSrc w (.cons true ⟨"", []⟩ (toSrcStmts body) SCr))
       (hs ++ Hr) ([LItem.label sL false] ++ ops ++ [LItem.label eB false] ++ Cr) dIn dOut := by
   have hsub : ∀ k, (brkEnv env k).subst = [] := fun k => he.1
   refine ⟨fun k nt b => ?_, ?_⟩
   · obtain ⟨gW, _, _, _⟩ := hW.sem (brkEnv env k) (hsub k) k nt (.cons true ⟨"", []⟩ (toSrcStmts body) SCr) b
     rw [trCases_default fuel (brkEnv env k) _ _ SCr k nt b rfl rfl] at gW
-    exact ((hR.grow k nt b).trans ((hP _ (plainEnv_brkEnv he k)).grow _ _)).trans gW
-  intro k nt r pH pC hpH hpC b hag m j sC hl hc hex hend
+    exact ((hR.grow k nt b).trans ((hP _ (plainEnv_brkEnv he k)).grow _ _)).trans gW.grow
+  intro k nt r pH pC hpH hpC b hag m j sC hl hc hex hin hend
   have hPe := hP _ (plainEnv_brkEnv he k)
   obtain ⟨gW, ebW, edW, cW⟩ := hW.sem (brkEnv env k) (hsub k) k nt (.cons true ⟨"", []⟩ (toSrcStmts body) SCr) b
   have gR := hR.grow k nt b
@@ -149,9 +152,9 @@ theorem sw_default (cx : Cx) (fuel : Nat) (env : Src.Env) (he : PlainEnv env) (e
   simp only at gW ebW edW cW
   generalize hTW : Src.trCases fuel [] (brkEnv env k) (wSrc w (.cons true ⟨"", []⟩ (toSrcStmts body) SCr)) k nt b = TW
     at hag gW ebW edW cW ⊢
-  have agR : AgreeOn cx.N b T0.1 := hag.sub_grow (Grow.refl b) (gB.trans gW)
-  have agB : AgreeOn cx.N T0.1 Bd.1 := hag.sub_grow gR gW
-  have agW : AgreeOn cx.N Bd.1 TW.1 := hag.sub_grow (gR.trans gB) (Grow.refl _)
+  have agR : AgreeOn cx.N cx.Z b T0.1 := hag.sub_grow (Grow.refl b) (gB.trans gW.grow)
+  have agB : AgreeOn cx.N cx.Z T0.1 Bd.1 := hag.sub_grow gR gW.grow
+  have agW : AgreeOn cx.N cx.Z Bd.1 TW.1 := hag.sub_grow (gR.trans gB) (Grow.refl _)
   have hpHs : Placed cx.rs r pH hs := hpH.left
   have hpHr : Placed cx.rs r (pH + hs.length) Hr := hpH.right
   have hpBlk : Placed cx.rs r pC ([LItem.label sL false] ++ ops ++ [LItem.label eB false] ++ Cr) := hpC
@@ -161,12 +164,14 @@ theorem sw_default (cx : Cx) (fuel : Nat) (env : Src.Env) (he : PlainEnv env) (e
   have hendR : R2 cx m j ⟨r, pC + ops.length + 2 + Cr.length⟩ k := by
     have e : pC + ops.length + 2 + Cr.length = pC + ([LItem.label sL false] ++ ops ++ [LItem.label eB false] ++ Cr).length := by len_omega
     rw [e]; exact hend
-  obtain ⟨tR, bR, dR⟩ := cR r (pH + hs.length) (pC + ops.length + 2) hpHr hpCr agR m j sC hl hc hex hendR
+  obtain ⟨tR, bR, dR, xR⟩ := cR r (pH + hs.length) (pC + ops.length + 2) hpHr hpCr agR m j sC hl hc hex hin hendR
   have hexA : ExitsOK cx m j sa (brkEnv env k) := hex.same (hsaL.trans hl.symm) (hsaC.trans hc.symm)
-  have hbody : R2 cx m j ⟨r, pC⟩ Bd.2 := by
-    have := loop_body_run cx hPe sL eB Cr hpBlk T0.2.1 T0.1 (by rw [hBd]; exact agB) m j hexA bR
+  have hbody2 : R2 cx m j ⟨r, pC⟩ Bd.2 ∧ LabExport cx (brkEnv env k) m j T0.1 Bd.1 := by
+    have := loop_body_run cx hPe sL eB Cr hpBlk T0.2.1 T0.1 (by rw [hBd]; exact agB) m j hexA (hin.le hle) bR
     rw [hBd] at this; exact this
-  refine ⟨fun hnt => ?_, by rw [ebW]; exact hbody, ?_⟩
+  have hbody := hbody2.1
+  refine ⟨fun hnt => ?_, by rw [ebW]; exact hbody, ?_, LabExport.comp gR.len xR
+    (LabExport.comp gB.len hbody2.2 (LabExport.same (fun i hi => gW.same hi)))⟩
   · have hnt' : R2 cx m j ⟨r, pH + hs.length + Hr.length⟩ nt := by
       have e : pH + hs.length + Hr.length = pH + (hs ++ Hr).length := by len_omega
       rw [e]; exact hnt
